@@ -101,6 +101,10 @@ type FuncEnc struct {
 	OnReturn         func(e *FuncEnc, ret *ssa.Return, results []string)
 	PostEncode       func()
 	stableFV         map[*ssa.FreeVar]string
+	inlineDepth      int
+	loopConsts       map[string][4]string
+	ErrFormats       map[string]string // fmt.Errorf format literal -> literal symbol (ghost errfmt)
+	BodyErrs         []string          // "request body could not be read/decoded" conditions seen so far
 }
 
 type loopInfo struct {
@@ -532,6 +536,7 @@ func (e *FuncEnc) init() {
 	e.globals = map[string]bool{}
 	e.closures = map[*ssa.MakeClosure]bool{}
 	e.stableFV = map[*ssa.FreeVar]string{}
+	e.ErrFormats = map[string]string{}
 	e.deferReach = map[*ssa.Defer]string{}
 }
 
@@ -665,7 +670,15 @@ func (e *FuncEnc) encodeBlock(b *ssa.BasicBlock) {
 			e.havocAll(e.cur)
 		} else {
 			for _, k := range sortedKeys(li.modKeys) {
+				sortK, known := e.heapSorts[k]
+				var before string
+				if known {
+					before = e.heapName(e.cur, k, sortK)
+				}
 				e.havocHeap(e.cur, k)
+				if known {
+					e.loopFrame(li, k, before, e.heapName(e.cur, k, sortK))
+				}
 			}
 		}
 		if li.modTrace {
@@ -962,4 +975,106 @@ func stableCell(al *ssa.Alloc) (*ssa.Store, bool) {
 		return nil, false
 	}
 	return stores[0], true
+}
+
+// loopFrame: if every write to heap `key` inside the loop goes to an element of
+// a loop-invariant slice/array or to a field of a loop-invariant object, all
+// other cells keep their value across the loop (frame of the loop).
+func (e *FuncEnc) loopFrame(li *loopInfo, key, before, after string) {
+	if before == "" || before == after || !strings.HasPrefix(key, "H_") {
+		return
+	}
+	invariant := func(v ssa.Value) bool {
+		switch x := v.(type) {
+		case *ssa.Const, *ssa.Global, *ssa.Parameter, *ssa.FreeVar, *ssa.Function:
+			return true
+		case ssa.Instruction:
+			return !li.body[x.Block()]
+		}
+		return false
+	}
+	var conds []string
+	for b := range li.body {
+		for _, in := range b.Instrs {
+			switch x := in.(type) {
+			case *ssa.Store:
+				hit := false
+				for _, lf := range e.leaves(x.Val.Type(), func(s string) string { return s }, 0) {
+					if lf.key == key {
+						hit = true
+					}
+				}
+				if !hit {
+					continue
+				}
+				switch a := x.Addr.(type) {
+				case *ssa.IndexAddr:
+					if !invariant(a.X) {
+						return
+					}
+					if _, ok := e.val[a.X]; !ok {
+						return
+					}
+					base := e.v(a.X)
+					if _, isSl := a.X.Type().Underlying().(*types.Slice); isSl {
+						base = sx("sl_base", base)
+					}
+					if _, isStruct := x.Val.Type().Underlying().(*types.Struct); isStruct {
+						return
+					}
+					conds = append(conds, not(and(eq(sx("akind", "a"), "1"), eq(sx("elem_base", "a"), base))))
+				case *ssa.FieldAddr:
+					root := a.X
+					if !invariant(root) {
+						return
+					}
+					if _, ok := e.val[root]; !ok {
+						if _, isC := root.(*ssa.Const); !isC {
+							return
+						}
+					}
+					if _, isStruct := x.Val.Type().Underlying().(*types.Struct); isStruct {
+						return
+					}
+					st := a.X.Type().Underlying().(*types.Pointer).Elem()
+					addr := "(" + e.D.FieldAddrFn(st, a.Field) + " " + e.v(root) + ")"
+					conds = append(conds, not(eq("a", addr)))
+				case *ssa.Alloc:
+					if li.body[a.Block()] {
+						// a cell allocated in the loop: fresh every iteration, cannot be an old cell
+						continue
+					}
+					conds = append(conds, not(eq("a", e.v(a))))
+				default:
+					return
+				}
+			case *ssa.Alloc:
+				// zero-initialisation of a cell allocated in the loop: fresh address
+			case ssa.CallInstruction:
+				c := x.Common()
+				if bi, ok := c.Value.(*ssa.Builtin); ok {
+					if bi.Name() == "append" || bi.Name() == "copy" {
+						if st, ok := c.Args[0].Type().Underlying().(*types.Slice); ok {
+							for _, lf := range e.leaves(st.Elem(), func(s string) string { return s }, 0) {
+								if lf.key == key {
+									return
+								}
+							}
+						}
+					}
+					continue
+				}
+				li2 := &loopInfo{modKeys: map[string]bool{}}
+				e.callMods(x, li2)
+				if li2.modTop || li2.modKeys[key] {
+					return
+				}
+			case *ssa.MakeSlice:
+				// zeroing of a fresh array
+			}
+		}
+	}
+	// fresh allocations made inside the loop are newer than every cell that existed before it
+	conds = append(conds, fmt.Sprintf("(<= (atime a) (+ T0 %d))", e.allocIdx))
+	e.emit(fmt.Sprintf("(assert (forall ((a Int)) (! (=> %s (= (select %s a) (select %s a))) :pattern ((select %s a)))))", and(conds...), after, before, after))
 }
